@@ -39,7 +39,7 @@ def observe(game, n):
 
 
 def check_gaps(ctx, case, n, lo, up, gaps, scale, K) -> None:
-    tol = 1e-9 * (1.0 + scale * (1 << n))
+    tol = sut.gap_tol(n, scale)
     for k, v in gaps.items():
         ctx.count("gap_values_checked")
         want = ref_gap_float(k, n, lo.tolist(), up.tolist())
@@ -56,7 +56,7 @@ def walk(ctx, case) -> None:
     truth = np.array(values)
     scale = float(np.max(np.abs(truth))) or 1.0
     slack = 0.0 if exact else sut.ulp_slack(n, scale)
-    gslack = 1e-9 * (1.0 + scale * (1 << n))
+    gslack = sut.gap_tol(n, scale)
     game = sut.object_for_case(ctx, case, comp)
     size = 1 << n
     try:
